@@ -198,6 +198,71 @@ func runC15(ctx *Ctx) *Report {
 			}
 		}
 	}
+	// LF against CRLF when a row (indentation, bullet, blank, name – without its line ending) is exactly as long as
+	// a reader's buffer, one byte less, one byte more: 4095, 4096, 4097, 8191, 8192 and 4095 + k·4096 bytes; the long
+	// row is the root's, an inner node's, the last row of the document
+	{
+		lens := []int{4094, 4095, 4096, 4097, 8190, 8191, 8192, 8193, 12287, 16383}
+		for i := 0; i < 6; i++ {
+			k := 1 + ctx.Rng.Intn(13)
+			lens = append(lens, 4095+k*4096, 4096+k*4096, 4095+k*4096-ctx.Rng.Intn(3)+1)
+		}
+		if ctx.Thorough {
+			for k := 0; k < 15; k++ {
+				for dlt := -2; dlt <= 2; dlt++ {
+					lens = append(lens, 4095+k*4096+dlt)
+				}
+			}
+		}
+		for li, n := range lens {
+			s1 := randSpelling(ctx.Rng)
+			s1.CRLF, s1.NoSpace, s1.BlankEvery, s1.LeadBlank = false, false, 0, false
+			if li%3 == 0 {
+				s1 = Spelling{IndentChar: ' ', Unit: 2, Bullets: "-", FinalNL: true}
+			}
+			s2 := s1
+			s2.CRLF = true
+			if li%4 == 1 {
+				s2.FinalNL = !s1.FinalNL
+			}
+			// where the long row is, and how deep (the indentation counts)
+			var f []*Tree
+			depth := 0
+			long := &Tree{}
+			switch (li + ctx.Rng.Intn(4)) % 4 {
+			case 0:
+				f, depth = []*Tree{{Name: "r", Kids: []*Tree{{Name: "a"}, long, {Name: "z.go"}}}, {Name: "s"}}, 1
+			case 1:
+				long.Kids = []*Tree{{Name: "a", Kids: []*Tree{{Name: "b.go"}}}, {Name: "c"}}
+				f, depth = []*Tree{{Name: "first"}, long}, 0
+			case 2:
+				f, depth = []*Tree{{Name: "r", Kids: []*Tree{{Name: "a", Kids: []*Tree{{Name: "b", Kids: []*Tree{long}}}}}}}, 3
+			case 3:
+				f, depth = []*Tree{{Name: "r", Kids: []*Tree{{Name: "a"}}}, {Name: "s", Kids: []*Tree{{Name: "t", Kids: []*Tree{{Name: "u"}, long}}}}}, 2
+			}
+			indent := depth * s1.Unit
+			if s1.Sharp && depth > 0 {
+				indent = (depth - 1) * s1.Unit
+			}
+			nameLen := n - indent - 2
+			long.Name = strings.Repeat("N", nameLen-3) + ".go"
+			if !representable(f, s1) {
+				continue
+			}
+			// the row really has the length asked for
+			ok := false
+			for _, row := range strings.Split(string(spell(f, s1)), "\n") {
+				if len(row) == n {
+					ok = true
+				}
+			}
+			if !ok {
+				panic("c15: long row has not the intended length")
+			}
+			pairs = append(pairs, pairCase{Kind: "spell-pair", Forest: encForest(f), S1: s1, S2: s2, Fmt: lineFormats()[li%len(lineFormats())], Exts: []string{".go"}})
+			rep.Count("pair:long-row-lf-vs-crlf")
+		}
+	}
 	for bi, name := range []string{"deep", "wide", "many-roots"} {
 		f := bigShapes()[name]
 		pairs = append(pairs, pairCase{Kind: "spell-pair", Forest: encForest(f), S1: sps[(3*bi+1)%len(sps)], S2: sps[(5*bi+6)%len(sps)], Fmt: allFormats()[bi%len(allFormats())], Exts: extLists[1], WithFS: true})
